@@ -33,7 +33,9 @@ def sim_text(what):
             "Trace_Rtps.tla binds it to the code: every scenario is executed by the real participants in a deterministic "
             "simulation (controlled loss/duplication/reordering/delay and virtual time) and TLC validates the recorded trace "
             "event by event (sender-justified DATA/GAP/HEARTBEAT, receiver-sound ACKNACK/take, API results, bounded liveness "
-            "after heal). " + what)
+            "after heal). Besides the targeted families every check runs a seeded 'rich' family: one writer with random QoS, up to three "
+            "late-joining / deleted readers with random compatible QoS, random write / dispose / unregister over three instances, takes, "
+            "faults switched on and off, partitions and batched bursts (several DATA in one RTPS message). " + what)
 
 
 TECH_SIM = "explicit TLA+ spec; executions of the real code in a deterministic simulation validated by TLC against the trace specification (impl->spec conformance), fault patterns enumerated + seeded"
